@@ -22,7 +22,8 @@ META = {
              'all 3-node loop-free graphs (thorough; sampled in quick); random graphs (<= 60 nodes) with runs of 2-10 '
              'prunable nodes adjacent in graph.nodes and linked to each other; non-trivial = >= 2 prunable nodes adjacent '
              'in the node list or a prunable node referenced by an attacker; distinct = digest(case)'
-             '; added strata: labels changed after an earlier analysis of the same graph, generated graphs whose model served a newer graph, chains and prunes of > 128 steps, DEBUG log level'),
+             '; added strata: labels changed after an earlier analysis of the same graph, generated graphs whose model served a newer graph, chains and prunes of > 128 steps, DEBUG log level'
+             '; round 7: second prune of the same graph after a survivor became an entry point (appended directly) and non-viable; nodes that left the graph keep the compromise relation symmetric'),
     'assumptions': ['structural consistency as defined by C09 (mtv/agraph.check_invariants)'],
     'shards': {'quick': 8, 'thorough': 16},
     'quotas': {
